@@ -161,6 +161,21 @@ theorem dedicated_sram_cascade_within_limit (b : Builder) (ref fb : CostMap) (li
   obtain ⟨l, first, _, _, _, _, _, _, h7⟩ := (hinv.good ci hci).ex
   exact h7 hs
 
+/-- **optimize_accepts_within_limit.**  The schedule `optimize_sub_schedule` returns (if any) is one whose
+    `estimate_schedule_memory_usage` does not exceed the memory limit — for every list of proposals the search could make. -/
+theorem optimize_accepts_within_limit (b : Builder) (fb : CostMap) (limit : Int) (proposals : List CostMap)
+    (best : Proposal) (seen : List Proposal) (h : optimizeSubSchedule b fb limit proposals = .ok (some best, seen)) :
+    best.usage ≤ limit :=
+  optimizeLoop_within b fb limit proposals 0 0 none [] _ (by intro p hp; cases hp) h best rfl
+
+/-- **schedule_estimate_covers_every_operation.**  `estimate_schedule_memory_usage` is at least what it attributes to each
+    operation of the schedule: `cascade mem_usage + non_local(op)` for a member of a cascade, `ifm + ofm + weight buffers +
+    non_local(op)` otherwise.  With `optimize_accepts_within_limit`: every operation of an accepted proposal is within the limit. -/
+theorem schedule_estimate_covers_every_operation (ops : List SOp) (cost : CostMap) (cascades : List CascadeInfo)
+    (nonLocal : List (Nat × Int)) (u : Int) (h : estimateScheduleMemoryUsage ops cost cascades nonLocal = .ok u) :
+    0 ≤ u ∧ ∀ op ∈ ops, ∀ v, opEstimate cost cascades nonLocal op = .ok (some v) → v ≤ u :=
+  estimate_fold_ge cost cascades nonLocal ops 0 u h
+
 /-! ## (a) the bridge to the live ranges
 
 `Linked ref none l (x0, steps)` relates the chain `l` of the builder to the tensors the live-range extraction sees for the
